@@ -10,3 +10,4 @@ import Ymq.Props.C04Shape
 #print axioms Ymq.C04Shape.sched_inv_shape
 #print axioms Ymq.C04Shape.shape_adds_exactly
 #print axioms Ymq.C04Shape.source_shapes_ok
+#print axioms Ymq.C04Shape.sched_inv_any_programs
